@@ -128,6 +128,17 @@ struct M04<R: RtT> {
     frames: Mutex<HashMap<u64, SFrame<R>>>,
     tasks: Mutex<HashMap<u64, Task>>,
     salt: AtomicU64,
+    /// ids the last `begin` step drew by hand (kinds "drawn" / "root"): [trace, span id, parent]
+    drawn: Mutex<Option<[Option<String>; 3]>>,
+}
+
+/// The id-source kind of a `begin` step (older replay files say true / false).
+fn ex_kind(step: &Value) -> &str {
+    match &step["ex"] {
+        Value::Bool(true) => "all",
+        Value::String(s) => s.as_str(),
+        _ => "gen",
+    }
 }
 
 // ---------------------------------------------------------------- macro fixtures
@@ -217,6 +228,43 @@ fn form_explicit_typed<R: RtT>(m: &'static M04<R>, tr: emit::TraceId, pa: emit::
     run_loop(m)
 }
 
+// partly explicit ids: every control parameter as an Option (None = not given, the id is generated)
+#[emit::span(rt: m.rt.get(), "explicit ids as options of integers and text", trace_id: tr, span_parent: pa, span_id: id)]
+fn form_explicit_opt_int<R: RtT>(m: &'static M04<R>, tr: Option<u128>, pa: Option<&str>, id: Option<u64>) -> Leave {
+    reply_ok();
+    run_loop(m)
+}
+
+#[emit::span(rt: m.rt.get(), "explicit ids as options of text and typed ids", trace_id: tr, span_parent: pa, span_id: id)]
+fn form_explicit_opt_typed<R: RtT>(m: &'static M04<R>, tr: Option<&str>, pa: Option<u64>, id: Option<emit::SpanId>) -> Leave {
+    reply_ok();
+    run_loop(m)
+}
+
+#[emit::span(rt: m.rt.get(), "explicit ids as references to typed ids", trace_id: tr, span_parent: pa, span_id: id)]
+fn form_explicit_refs<R: RtT>(m: &'static M04<R>, tr: &Option<emit::TraceId>, pa: &&emit::SpanId, id: Option<&emit::SpanId>) -> Leave {
+    reply_ok();
+    run_loop(m)
+}
+
+/// Ids the program draws itself from the runtime's random source (whatever wrapper form it has):
+/// `Rng::fill`, `gen_u128` / `gen_u64`, `TraceId::random` / `SpanId::random`.
+fn draw_ids<G: emit::Rng>(rng: &G, how: u64) -> (Option<emit::TraceId>, Option<emit::SpanId>, Option<emit::SpanId>) {
+    match how % 3 {
+        0 => (
+            rng.fill([0u8; 16]).and_then(|b| emit::TraceId::from_u128(u128::from_le_bytes(b))),
+            rng.fill([0u8; 8]).and_then(|b| emit::SpanId::from_u64(u64::from_le_bytes(b))),
+            rng.fill(vec![0u8; 8]).and_then(|b| emit::SpanId::from_u64(u64::from_le_bytes(b.try_into().unwrap()))),
+        ),
+        1 => (
+            rng.gen_u128().and_then(emit::TraceId::from_u128),
+            rng.gen_u64().and_then(emit::SpanId::from_u64),
+            rng.gen_u64().and_then(emit::SpanId::from_u64),
+        ),
+        _ => (emit::TraceId::random(rng), emit::SpanId::random(rng), emit::SpanId::random(rng)),
+    }
+}
+
 fn form_new_span_call<R: RtT>(m: &'static M04<R>) -> Leave {
     let (mut guard, frame) = emit::new_span!(rt: m.rt.get(), "new_span then call");
     frame.call(move || {
@@ -269,7 +317,7 @@ async fn form_async_guard<R: RtT>(m: &'static M04<R>) -> Leave {
 
 impl<R: RtT> M04<R> {
     fn new(form: &'static str, rt: &'static R, rows: RecEmitter, fstate: Arc<FilterState>) -> M04<R> {
-        M04 { rt, form, fstate, rows, frames: Mutex::new(HashMap::new()), tasks: Mutex::new(HashMap::new()), salt: AtomicU64::new(0) }
+        M04 { rt, form, fstate, rows, frames: Mutex::new(HashMap::new()), tasks: Mutex::new(HashMap::new()), salt: AtomicU64::new(0), drawn: Mutex::new(None) }
     }
 
     fn take_frame(&self, f: u64) -> SFrame<R> {
@@ -307,15 +355,44 @@ impl<R: RtT> Machine for M04<R> {
             "begin" => {
                 self.set_verdict(step);
                 let i = step["i"].as_u64().unwrap();
-                let leave = if step["ex"] == true {
-                    let tr = incoming_trace(step["xids"][0].as_u64().unwrap());
-                    let id = incoming_span(step["xids"][1].as_u64().unwrap());
-                    let pa = incoming_span(step["xids"][2].as_u64().unwrap());
-                    match (salt + i) % 4 {
-                        0 => form_explicit_str(self, &tr.to_string(), &pa.to_string(), &id.to_string()),
-                        1 => form_explicit_ctxt(self, SpanCtxt::new(Some(tr), Some(pa), Some(id))),
-                        2 => form_explicit_int(self, tr.to_u128(), pa.to_u64(), id.to_u64()),
-                        _ => form_explicit_typed(self, tr, pa, &id),
+                let kind = ex_kind(step);
+                let leave = if kind == "root" {
+                    // a root made by hand: fresh trace id and span id from the runtime's source, no parent
+                    let c = SpanCtxt::new_root(self.rt.get().rng());
+                    *self.drawn.lock().unwrap() = Some([c.trace_id().map(|t| format!("t:{t}")), c.span_id().map(|s| format!("s:{s}")), c.span_parent().map(|s| format!("s:{s}"))]);
+                    match (salt + i) % 2 {
+                        0 => form_explicit_ctxt(self, c),
+                        _ => form_explicit_opt_typed(self, c.trace_id().map(|t| t.to_string()).as_deref(), c.span_parent().map(|p| p.to_u64()), c.span_id().copied()),
+                    }
+                } else if kind != "gen" {
+                    let x = &step["xids"];
+                    let (tr, id, pa) = if kind == "drawn" {
+                        let d = draw_ids(self.rt.get().rng(), salt / 3 + i);
+                        *self.drawn.lock().unwrap() = Some([d.0.map(|t| format!("t:{t}")), d.1.map(|s| format!("s:{s}")), d.2.map(|s| format!("s:{s}"))]);
+                        d
+                    } else {
+                        (
+                            x[0].as_u64().filter(|n| *n != 0).map(incoming_trace),
+                            x[1].as_u64().filter(|n| *n != 0).map(incoming_span),
+                            x[2].as_u64().filter(|n| *n != 0).map(incoming_span),
+                        )
+                    };
+                    match (tr, id, pa) {
+                        (Some(tr), Some(id), Some(pa)) => match (salt + i) % 7 {
+                            0 => form_explicit_str(self, &tr.to_string(), &pa.to_string(), &id.to_string()),
+                            1 => form_explicit_ctxt(self, SpanCtxt::new(Some(tr), Some(pa), Some(id))),
+                            2 => form_explicit_int(self, tr.to_u128(), pa.to_u64(), id.to_u64()),
+                            3 => form_explicit_typed(self, tr, pa, &id),
+                            4 => form_explicit_opt_int(self, Some(tr.to_u128()), Some(&pa.to_string()), Some(id.to_u64())),
+                            5 => form_explicit_opt_typed(self, Some(&tr.to_string()), Some(pa.to_u64()), Some(id)),
+                            _ => form_explicit_refs(self, &Some(tr), &&pa, Some(&id)),
+                        },
+                        // some of them not given (None): those are generated
+                        (tr, id, pa) => match (salt + i) % 3 {
+                            0 => form_explicit_opt_int(self, tr.map(|t| t.to_u128()), pa.map(|p| p.to_string()).as_deref(), id.map(|s| s.to_u64())),
+                            1 => form_explicit_opt_typed(self, tr.map(|t| t.to_string()).as_deref(), pa.map(|p| p.to_u64()), id),
+                            _ => form_explicit_ctxt(self, SpanCtxt::new(tr, pa, id)),
+                        },
                     }
                 } else { match (salt + i) % 8 {
                     0 => form_sync_fn(self),
@@ -572,12 +649,22 @@ impl<R: RtT> CaseRunner for Runner<R> {
                 } else if rep.get("panicked").is_some() {
                     return Some(json!({"what": "panic in code under test", "detail": rep}));
                 }
-                if step["op"] == "begin" && step["ex"] == true {
+                let exk = if step["op"] == "begin" { ex_kind(step) } else { "gen" };
+                if exk == "drawn" || exk == "root" {
+                    // ids the program drew itself from the random source: fresh (non-zero, distinct
+                    // from every id seen so far) as long as the source does not repeat
+                    let x = &step["xids"];
+                    let d = m.drawn.lock().unwrap().take().unwrap_or([None, None, None]);
+                    if !unify_ids(bij, &json!([x[0], x[1], x[2]]), &d[0], &d[1], &d[2]) {
+                        return Some(json!({"what": "ids drawn by hand from the runtime's random source (Rng::fill / gen_u128 / gen_u64 / SpanCtxt::new_root) are missing, or not distinct from the ids already in use",
+                            "detail": {"kind": exk, "want": x, "got": format!("{d:?}"), "known": bij.dump()}}));
+                    }
+                } else if exk != "gen" {
                     // explicit ids are the environment's too
                     let x = &step["xids"];
-                    let tr = Some(format!("t:{}", incoming_trace(x[0].as_u64().unwrap())));
-                    let id = Some(format!("s:{}", incoming_span(x[1].as_u64().unwrap())));
-                    let pa = Some(format!("s:{}", incoming_span(x[2].as_u64().unwrap())));
+                    let tr = x[0].as_u64().filter(|n| *n != 0).map(|n| format!("t:{}", incoming_trace(n)));
+                    let id = x[1].as_u64().filter(|n| *n != 0).map(|n| format!("s:{}", incoming_span(n)));
+                    let pa = x[2].as_u64().filter(|n| *n != 0).map(|n| format!("s:{}", incoming_span(n)));
                     if !unify_ids(bij, &json!([x[0], x[1], x[2]]), &tr, &id, &pa) {
                         tool_error("explicit ids collide with other ids");
                     }
@@ -652,7 +739,7 @@ impl<R: RtT> CaseRunner for Runner<R> {
                     if o.get("panicked").is_some() {
                         return Some(json!({"what": "panic while observing", "detail": o}));
                     }
-                    if step["op"] == "begin" && step["ex"] == true && step["v"] == true && step["t"].as_u64() == Some(t as u64 + 1) {
+                    if exk != "gen" && step["v"] == true && step["t"].as_u64() == Some(t as u64 + 1) {
                         // explicit ids must be what is ambient inside the span.  The one known way to be
                         // wrong (finding F30): the generated ids overwrote them ("last value wins" inside
                         // the pushed set).  Everything after that point follows from it: the program ends
@@ -706,6 +793,8 @@ fn build(form: &str) -> Box<dyn CaseRunner> {
     }
     match form {
         "value" => runner("value", leak(Runtime::build(rows.clone(), filter, tl, clock(), rng())), rows, fstate),
+        // a third-party stacking context on the trait defaults: shadowed duplicates stay visible
+        "stack" => runner("stack", leak(Runtime::build(rows.clone(), filter, StackCtxt, clock(), rng())), rows, fstate),
         // a runtime without a random source
         "norng" => runner("norng", leak(Runtime::build(rows.clone(), filter, tl, clock(), None::<CounterRng>)), rows, fstate),
         // the random source takes the same form as the context (the Rng wrapper impls of core/src/rng.rs)
